@@ -17,7 +17,8 @@ from ..gen import runner_modules as G
 
 BITS = {'P': '100', 'F': '010', 'S': '001'}
 ENV_DROP = ('XDOCTEST_OPTIONS', 'XDOCTEST_VERBOSE', 'XDOCTEST_STYLE', 'XDOCTEST_ANALYSIS', 'XDOCTEST_REPORT',
-            'XDOCTEST_GLOBAL_EXEC', 'PYTEST_ADDOPTS', 'XDOCTEST_INSERT_SKIP_DIRECTIVE_ABOVE_FAILURES')
+            'XDOCTEST_GLOBAL_EXEC', 'PYTEST_ADDOPTS', 'XDOCTEST_INSERT_SKIP_DIRECTIVE_ABOVE_FAILURES', 'NO_COLOR',
+            'XDOCTEST_DEBUG', 'XDOCTEST_DEBUG_RUNNER', 'XDOCTEST_DEBUG_CORE', 'XDOCTEST_DEBUG_PARSER', 'XDOCTEST_DEBUG_DOCTEST')
 
 
 def write_module(d, spec):
@@ -69,14 +70,15 @@ def real_zero_args(path):
         return [e.callname for e in runner._gather_zero_arg_examples(path)]
 
 
-def make_config(optstr, verbose):
+def make_config(optstr, verbose, global_exec=None):
     from xdoctest.doctest_example import DoctestConfig
     ns = {'options': (optstr.lower() if optstr is not None else ''), 'offset_linenos': False, 'colored': False,
-          'reportchoice': 'udiff', 'global_exec': None, 'supress_import_errors': False, 'verbose': verbose}
+          'reportchoice': 'udiff', 'global_exec': global_exec, 'supress_import_errors': False, 'verbose': verbose}
     return DoctestConfig()._populate_from_cli(ns)
 
 
-def observe_native(path, cmd, style, verbose, optstr, tracefile, noconfig=False, ident='path'):
+def observe_native(path, cmd, style, verbose, optstr, tracefile, noconfig=False, ident='path', global_exec=None,
+                   analysis='auto', durations=None):
     """in-process `runner.doctest_module`; returns dict(kind='run'|'list'|'dump'|'raised', ...)"""
     from xdoctest import runner
     os.environ['XDOCVERIF_TRACE'] = tracefile
@@ -84,7 +86,7 @@ def observe_native(path, cmd, style, verbose, optstr, tracefile, noconfig=False,
     buf = io.StringIO()
     try:
         # noconfig: the plain programmatic call `xdoctest.doctest_module(path, command=...)` (config=None)
-        config = None if (noconfig and optstr is None) else make_config(optstr, verbose)
+        config = None if (noconfig and optstr is None and global_exec is None) else make_config(optstr, verbose, global_exec)
         with contextlib.redirect_stdout(buf), warnings.catch_warnings():
             warnings.simplefilter('ignore')
             # the module can be identified by its path, by `path::command`, or by the live module object
@@ -94,7 +96,8 @@ def observe_native(path, cmd, style, verbose, optstr, tracefile, noconfig=False,
             elif ident == 'module':
                 from xdoctest import utils
                 target = utils.import_module_from_path(path)
-            rs = runner.doctest_module(target, command=command, argv=[], style=style, verbose=verbose, config=config)
+            rs = runner.doctest_module(target, command=command, argv=[], style=style, verbose=verbose, config=config,
+                                       analysis=analysis, durations=durations)
     except BaseException as e:  # noqa
         return {'kind': 'raised', 'exc': '%s: %s' % (type(e).__name__, str(e)[:200]), 'trace': read_trace(tracefile),
                 'stdout': buf.getvalue()}
@@ -201,28 +204,41 @@ def cli_subprocess(path, cmd, style, flags, optstr, tracefile, timeout=120):
 PYTEST_LINE_RE = re.compile(r'^(?:\S*/)?([^/\s]+\.py)::(\S+) (PASSED|FAILED|SKIPPED|ERROR|XFAIL|XPASS)\b', re.M)
 
 
-def pytest_subprocess(d, paths, style, optflag, optstr, tracefile, junit, timeout=300):
+def pytest_subprocess(d, paths, style, optflag, optstr, tracefile, junit, timeout=300, treat=None, extra_args=(),
+                      targets=None):
     """one `pytest --xdoctest-modules -rA -v <directory>` process over a batch of module files, which must be
     ALL the .py files of their directory: pytest discovers them (in file-name order).  Naming the files on the
     command line instead would make pytest's own python plugin import each of them as a test module (explicit
     arguments bypass the test_*.py name filter), so a module that raises on import would be a collection error
     of pytest itself and abort the whole session.
+    `treat` (corr/runnerenv.py): style / options / other settings arrive as pytest arguments, as `addopts` of
+    the ini file, or through the environment, instead of the two plain flags.
     returns dict(rc, items=[(file, name, outcome)] from the junit xml, lines=[...] from -v, stdout)"""
     argv = [sys.executable, '-m', 'pytest', '--xdoctest-modules', '-rA', '-v', '-p', 'no:cacheprovider',
-            '--xdoctest-style=' + style, '--junitxml=' + junit, '-o', 'junit_family=xunit1',
+            '--junitxml=' + junit, '-o', 'junit_family=xunit1',
             '--rootdir=' + d, '-c', os.path.join(d, 'pytest.ini')]
-    if not os.path.exists(os.path.join(d, 'pytest.ini')):
-        with open(os.path.join(d, 'pytest.ini'), 'w') as f:
-            f.write('[pytest]\n')
-    if optstr is not None:
-        argv.append('%s=%s' % (optflag, optstr))
-    argv.append(os.path.dirname(paths[0]))
+    ini = ['[pytest]']
+    env_extra = {}
+    if treat is None:
+        argv.append('--xdoctest-style=' + style)
+        if optstr is not None:
+            argv.append('%s=%s' % (optflag, optstr))
+    else:
+        argv += list(treat['pyt'])
+        ini += list(treat['ini'])
+        env_extra = dict(treat['env'])
+    argv += list(extra_args)
+    with open(os.path.join(d, 'pytest.ini'), 'w') as f:
+        f.write('\n'.join(ini) + '\n')
+    argv += list(targets) if targets else [os.path.dirname(paths[0])]
     read_trace(tracefile)
     try:
         os.remove(junit)
     except OSError:
         pass
-    p = subprocess.run(argv, cwd=d, env=clean_env(tracefile), stdout=subprocess.PIPE, stderr=subprocess.STDOUT,
+    env = clean_env(tracefile)
+    env.update(env_extra)
+    p = subprocess.run(argv, cwd=d, env=env, stdout=subprocess.PIPE, stderr=subprocess.STDOUT,
                        timeout=timeout)
     out = p.stdout.decode('utf8', 'replace')
     items = []
@@ -301,7 +317,9 @@ def observe_case(path, case, tracefile):
     ch = case['channel']
     if ch == 'api':
         o = observe_native(path, case['cmd'], case['style'], case['verbose'], case['optstr'], tracefile,
-                           noconfig=bool(case.get('noconfig')), ident=case.get('ident', 'path'))
+                           noconfig=bool(case.get('noconfig')), ident=case.get('ident', 'path'),
+                           global_exec=case.get('global_exec'), analysis=case.get('analysis', 'auto'),
+                           durations=case.get('durations'))
         o['verbose'] = case['verbose']
         return o
     f = main_inprocess if ch == 'main' else cli_subprocess
@@ -337,8 +355,9 @@ def compare_case(exp, model, o):
         else:
             both('action', 'dump', mk, o['kind'])
         both('trace of a dump command', [], None, o['trace'])
-        ndef = len(re.findall(r'^def test_', o.get('stdout', ''), re.M))
-        both('number of dumped doctests', len(exp['names']), len(model['names']) if model and 'names' in model else None, ndef)
+        if v >= 0:       # the dumped text is logged at level 0: nothing is printed at verbosity -1
+            ndef = len(re.findall(r'^def test_', o.get('stdout', ''), re.M))
+            both('number of dumped doctests', len(exp['names']), len(model['names']) if model and 'names' in model else None, ndef)
         if model and 'names' in model and model['names'] != exp['names']:
             dis.append('dumped doctests: model %r, expected %r' % (model['names'], exp['names']))
         return dis, bad
@@ -430,7 +449,7 @@ def expected_front_ends(spec, style, opts):
     return out
 
 
-def front_end_lines(real_inv, opts, import_error=False):
+def front_end_lines(real_inv, opts, import_error=False, modtoken='?'):
     """protocol lines of op `front_ends`, one per collected doctest: the doctest is run ONCE in-process
     (run(on_error='return'), primitive part results recorded by corr/runloop.observe) and the model
     predicts both verdicts from that same record.  For a module that raises on import the recording run
@@ -439,9 +458,13 @@ def front_end_lines(real_inv, opts, import_error=False):
     lines = []
     for (cn, num, uq, src) in real_inv:
         text = src.replace('_trace(', 't(')
+        dflt = {k: v for k, v in (opts or {}).items() if not k.startswith('__')}
+        if (opts or {}).get('__genv__'):
+            text = text.replace('G_VERIF', '41')     # what --global-exec makes available
+        text = text.replace('_modval(0)', repr(modtoken))
         buf = io.StringIO()
         with contextlib.redirect_stdout(buf):
-            o = runloop.observe(text, on_error='return', defaults=dict(opts) if opts else None)
+            o = runloop.observe(text, on_error='return', defaults=dflt or None)
         if o.get('parse') != 'ok':
             lines.append(None)
             continue
@@ -473,11 +496,11 @@ def parse_front_ends(ans):
             'native_if_run': d['native'].upper(), 'pdis': d['pdis'] == '1', 'ndis': d['ndis'] == '1'}
 
 
-def model_front_ends(path, style, opts, import_error=False):
+def model_front_ends(path, style, opts, import_error=False, modtoken='?'):
     """model verdicts of every collected doctest + model exit codes; None entries = not covered"""
     from .. import driver
     inv = real_inventory(path, style)
-    lines = front_end_lines(inv, opts, import_error)
+    lines = front_end_lines(inv, opts, import_error, modtoken)
     idx = [i for i, l in enumerate(lines) if l is not None]
     ans = driver.run_lines([lines[i] for i in idx], jobs=1) if idx else []
     per = [None] * len(inv)
@@ -498,6 +521,22 @@ def model_front_ends(path, style, opts, import_error=False):
     return res
 
 
+def _fold_twice(r):
+    """a session in which every directory was given twice: both halves must be identical; returns the result
+    of one half (exit status unchanged) or marks the difference"""
+    r = dict(r)
+    for k in ('items', 'lines', 'trace'):
+        v = r.get(k)
+        if v is None:
+            continue
+        h = len(v) // 2
+        if len(v) % 2 or v[:h] != v[h:]:
+            r['twice_problem'] = 'second pass differs from the first: %s %r' % (k, v)
+        r[k] = v[:h]
+    r['short'] = list(dict.fromkeys(r.get('short') or []))
+    return r
+
+
 def split_pytest_items(r, modnames):
     """items of a pytest batch grouped by module: name -> [(doctest name, outcome)]"""
     by = {m: [] for m in modnames}
@@ -510,11 +549,14 @@ def split_pytest_items(r, modnames):
 
 
 def check_front_ends(d, specs, style, optstr, opts, optflag, tracefile, use_model=True, native_cli=False,
-                     per_module_pytest=False):
+                     per_module_pytest=False, treat=None, twice=False):
     """the modules `specs` through ONE pytest process (or one each) and through the native runner;
     returns list of per-module dicts(spec, problems(bad), disagreements(dis), ...)"""
     junit = os.path.join(d, 'junit.xml')
     out = []
+    if treat is not None:
+        from . import runnerenv as E
+        style, opts = treat['style'], E.oracle_opts(treat)
     exp_all = [expected_front_ends(s, style, opts) for s in specs]
     groups = [[i] for i in range(len(specs))] if per_module_pytest else [list(range(len(specs)))]
     # one directory per pytest process; pytest collects a directory in file-name order
@@ -527,7 +569,13 @@ def check_front_ends(d, specs, style, optstr, opts, optflag, tracefile, use_mode
             paths[i] = write_module(sub, specs[i])
     pyres = {}
     for g in groups:
-        r = pytest_subprocess(d, [paths[i] for i in g], style, optflag, optstr, tracefile, junit)
+        sub = os.path.dirname(paths[g[0]])
+        # twice: the same directory named twice in ONE pytest session (--keep-duplicates): every doctest must
+        # be collected, run and judged the same way the second time
+        r = pytest_subprocess(d, [paths[i] for i in g], style, optflag, optstr, tracefile, junit, treat=treat,
+                              extra_args=['--keep-duplicates'] if twice else (), targets=[sub, sub] if twice else None)
+        if twice:
+            r = _fold_twice(r)
         by = split_pytest_items(r, [specs[i]['name'] for i in g])
         anyf = any(e['pytest'] == 'F' for i in g for e in exp_all[i])
         nitems = sum(len(exp_all[i]) for i in g)
@@ -539,7 +587,7 @@ def check_front_ends(d, specs, style, optstr, opts, optflag, tracefile, use_mode
         r, by, exp_rc, exp_trace, g = pyres[i]
         exp = exp_all[i]
         dis, bad = [], []
-        model = model_front_ends(paths[i], style, opts, bool(spec.get('import_error'))) if use_model else None
+        model = model_front_ends(paths[i], style, opts, bool(spec.get('import_error')), G.mod_token(spec['name'])) if use_model else None
         # ---- pytest side
         if by is None:
             bad.append('pytest wrote no junit xml (rc=%r): %s' % (r['rc'], r['stdout'][-300:]))
@@ -564,6 +612,8 @@ def check_front_ends(d, specs, style, optstr, opts, optflag, tracefile, use_mode
                 if oc in 'PF' and len(g) == 1 and sh.get(n) != oc:
                     bad.append('pytest -rA summary says %r for %s, junit %s' % (sh.get(n), n, oc))
         if i == g[0]:
+            if r.get('twice_problem'):
+                bad.append('same directory twice in one pytest session: ' + r['twice_problem'][:600])
             if r['rc'] != exp_rc:
                 bad.append('pytest exit status %r, expected %r (batch of %d modules)' % (r['rc'], exp_rc, len(g)))
             if r['trace'] != exp_trace:
@@ -571,7 +621,14 @@ def check_front_ends(d, specs, style, optstr, opts, optflag, tracefile, use_mode
             if len(g) == 1 and model is not None and model['pytest_exit'] is not None and r['rc'] != model['pytest_exit']:
                 dis.append('pytest exit status %r, model %r' % (r['rc'], model['pytest_exit']))
         # ---- native side
-        nat = observe_native(paths[i], 'all', style, 1, optstr, tracefile)
+        if treat is None:
+            nat = observe_native(paths[i], 'all', style, 1, optstr, tracefile)
+        else:
+            # the treatment's native arguments / environment; verbosity 1 so that the verdict lines are printed
+            nf = E.cli if (native_cli or treat['subprocess_only']) else E.main_inprocess
+            nm = nf(paths[i], 'all', list(treat['nat']) + ['--verbose', '1'], treat['env'], os.path.dirname(paths[i]), tracefile)
+            nat = {'kind': 'run' if nm['rc'] in (0, 1) else 'raised', 'exc': 'exit status %r: %s' % (nm['rc'], nm['stdout'][-300:]),
+                   'verdict_lines': nm['verdict_lines'], 'trace': nm['trace']}
         exp_nat = [(e['native'], e['unique']) for e in exp if e['native'] is not None]
         exp_ntrace = [t for e in exp for t in e['trace_native']]
         if nat['kind'] != 'run':
@@ -588,8 +645,11 @@ def check_front_ends(d, specs, style, optstr, opts, optflag, tracefile, use_mode
         lst = observe_native(paths[i], 'list', style, 1, optstr, tracefile)
         if lst['kind'] == 'list' and items is not None and lst['names'] != [n for n, _ in items]:
             bad.append('native `list` names %r, pytest node ids %r' % (lst['names'], [n for n, _ in items]))
-        f = cli_subprocess if native_cli else main_inprocess
-        m = f(paths[i], 'all', style, ['--verbose', '1'], optstr, tracefile)
+        if treat is None:
+            f = cli_subprocess if native_cli else main_inprocess
+            m = f(paths[i], 'all', style, ['--verbose', '1'], optstr, tracefile)
+        else:
+            m = nm
         exp_nrc = 1 if any(e['native'] == 'F' for e in exp) else 0
         if m['rc'] != exp_nrc:
             bad.append('native exit status %r, expected %r' % (m['rc'], exp_nrc))
